@@ -111,6 +111,10 @@ if [ "$(cat "$OUT/.hxkey" 2>/dev/null || true)" != "$HKEY" ]; then
       echo "$CC $HCFL $DEFS $INCS -DHX_FLAVOUR_$FLAV -Wall -Wno-unused-function $HERE/$e.c $COMMON $OUT/libhtp_v.a -o $OUT/$e $WRAP $LIBS"
     fi
   done | xargs -P 16 -I{} sh -c '{}'
+  # C19: the library's umask() calls as scheduling points (self-contained, threads; not part of the hx harness)
+  if [ "$FLAV" = plain ]; then
+    $CC $HCFL $DEFS $INCS -Wall -Wno-unused-function "$HERE/umaskmc.c" "$OUT/libhtp_v.a" -o "$OUT/umaskmc" -Wl,--wrap=umask -lz -lpthread
+  fi
   echo "$HKEY" > "$OUT/.hxkey"
 fi
 echo "$OUT"
